@@ -103,6 +103,8 @@ func init() {
 			return fmt.Sprintf("%s %s | lint: %s | interp: %s | program: %s", r.lint, r.interp, r.lintMsg, r.interpMsg, r.src)
 		case "ctxget":
 			return tCtxGet(rest)
+		case "vtype":
+			return tVType(rest)
 		}
 		return "err unknown request"
 	})
@@ -187,6 +189,20 @@ func tListFuncs() string {
 	return strings.Join(out, ";")
 }
 
+// the declarations of the preamble that change the linter's variable table (linter/context AddBackend,
+// AddDirector, AddRatecounter)
+func tDeclare(c *lctx.Context) {
+	for _, n := range []string{"be_one", "be_two"} {
+		_ = c.AddBackend(n, &types.Backend{})
+	}
+	for _, n := range []string{"dr_one", "dr_two"} {
+		_ = c.AddDirector(n, &types.Director{Decl: &ast.DirectorDeclaration{}})
+	}
+	for _, n := range []string{"rc_one", "rc_two"} {
+		_ = c.AddRatecounter(n, &types.Ratecounter{})
+	}
+}
+
 // direct call of the linter context (no program): "<type-or-NULL> <ok|err>"
 func tCtxGet(rest string) string {
 	f := strings.Fields(rest)
@@ -201,8 +217,7 @@ func tCtxGet(rest string) string {
 		}
 	}
 	c := lctx.New()
-	c.Ratecounters["rc_one"] = &types.Ratecounter{}
-	c.Ratecounters["rc_two"] = &types.Ratecounter{}
+	tDeclare(c)
 	c.Scope(mode)
 	switch f[1] {
 	case "get":
@@ -417,8 +432,7 @@ func tVarBody(name, op string) (decls, body string, err error) {
 	case "set":
 		// the value is chosen from the type the REAL linter context declares for Set
 		c := lctx.New()
-		c.Ratecounters["rc_one"] = &types.Ratecounter{}
-		c.Ratecounters["rc_two"] = &types.Ratecounter{}
+		tDeclare(c)
 		c.Scope(0)
 		t, _ := c.Set(name)
 		v, ok := tValueOf(t.String())
@@ -509,7 +523,7 @@ func tOperand(ty, form, local string, left bool) (decl, expr string, ok bool) {
 		case "TIME":
 			return "", "now", true
 		case "IP":
-			return "", "client.ip", true
+			return "", "server.ip", true
 		case "BACKEND":
 			return "", "req.backend", true
 		case "header":
@@ -695,6 +709,38 @@ func tRunOne(src string, scope int, machine bool) (class, msg string) {
 		return tClassify(m), m
 	}
 	return "ok", ""
+}
+
+// type of the value of a predefined variable in each scope: ProcessExpression(&ast.Ident{...}) after SetScope
+func tVType(name string) string {
+	src := tProgram("", "", 1)
+	out := make([]string, len(tScopeNames))
+	for s := range tScopeNames {
+		out[s] = func() (r string) {
+			defer func() {
+				if e := recover(); e != nil {
+					r = "-"
+				}
+			}()
+			ip := interpreter.New(ictx.WithResolver(resolver.NewStaticResolver("cell.vcl", src)))
+			ip.Debugger = tQuiet{}
+			req, err := ihttp.NewRequest(http.MethodGet, "http://localhost/verif?a=b", http.NoBody)
+			if err != nil {
+				return "-"
+			}
+			req.RemoteAddr = "192.0.2.1:11111"
+			if err := ip.TestProcessInit(req); err != nil {
+				return "-"
+			}
+			ip.SetScope(tInterpScopes[s])
+			v, err := ip.ProcessExpression(&ast.Ident{Value: name, Meta: &ast.Meta{}})
+			if err != nil || v == nil {
+				return "-"
+			}
+			return string(v.Type())
+		}()
+	}
+	return strings.Join(out, " ")
 }
 
 type tQuiet struct{}
